@@ -487,9 +487,11 @@ def main(run):
             v = [0] * nobj
             v[0], v[1] = j * weights[0], (k - 1 - j) * weights[1]
             uni.append(([j], tuple(v)))
-        for j in range(rng.randint(1, 3)):        # dominators of a random sub-range
+        for j in range(rng.randint(1, 3)):        # dominators of a random sub-range (usually >= 2 members)
             a = rng.randint(0, k - 1)
             b = rng.randint(a, k - 1)
+            if a == b and k >= 2 and rng.random() < 0.7:
+                a, b = (a - 1, b) if a > 0 else (a, b + 1)
             v = [0] * nobj
             v[0], v[1] = b * weights[0], (k - 1 - a) * weights[1]
             if rng.random() < 0.5:
@@ -497,9 +499,11 @@ def main(run):
             uni.append(([100 + j], tuple(v)))
         order = list(range(k))
         rng.shuffle(order)
-        script = [("update", [(j, u) for j, u in enumerate(order[:rng.randint(1, k)])])]
+        shown = order if rng.random() < 0.7 else order[:rng.randint(1, k)]
+        script = [("update", [(j, u) for j, u in enumerate(shown)])]
         for _ in range(rng.randint(1, 4)):
-            script.append(("update", [(rng.randrange(5), rng.randrange(len(uni))) for _ in range(rng.randint(0, 4))]))
+            script.append(("update", [(rng.randrange(5), rng.choice([rng.randrange(len(uni)), k + rng.randrange(len(uni) - k)]))
+                                      for _ in range(rng.randint(0, 4))]))
         kind = "pf" if rng.random() < 0.7 else "hof"
         term, hterm, case = D.drive(kind, rng.randint(1, 4), "SimEq", weights, uni, script, "plant")
         add("plant", term, case)
